@@ -343,6 +343,7 @@ def round_trips(ctx, repo):
     for row in table:
         by_class.setdefault(row[0], []).append(row)
     n_pairs = 0
+    n_iso = 0
     for cname, rows in sorted(by_class.items()):
         wires = []
         for _c, builder, args, expect, desc in rows:
@@ -386,8 +387,36 @@ def round_trips(ctx, repo):
                     ok, why = compare(exp, got)
                     ctx.ob("R2", f"{cname}[{dx} then {dy}]::{attr}", ok,
                            f"decoding {dy} after {dx} on the same (long-lived) {cname} instance gives `{attr}` wrong: {why} - state decoded from the earlier message survives", repo.method(cname, "handle").loc)
+        # instance isolation: what one handler instance decoded is not part of what ANOTHER instance of the class decodes
+        # (two connections, or the simulator and a client in one process) - all fields, accumulating ones included
+        for by, dy, wy, ey in wires:
+            bx, dx, wx, _ex = wires[0] if wires[0][1] != dy or len(wires) == 1 else wires[1]
+            sock = Obj(None, {"queue_send": Native(lambda a, k: None),
+                              "get_and_increment_sequence_counter": Native(lambda a, k: F("ackseq", 8))}, name="socket")
+            try:
+                hfi = repo.method(cname, "handle")
+                rx1 = fresh_handler(repo, interp, c, sock)
+                interp.steps = 0
+                interp.call(hfi, rx1, [wx, SENDER])
+                rx2 = fresh_handler(repo, interp, c, sock)
+                interp.steps = 0
+                interp.call(hfi, rx2, [wy, SENDER])
+            except PyRaise as e:
+                ctx.ob("R2", f"{cname}[{dy} on a second instance]::decodes", False, f"{cname}.handle raises {e.what} decoding {dy} on a fresh instance after another instance decoded {dx}", repo.method(cname, "handle").loc)
+                continue
+            except Undecided as e:
+                raise AnalysisError(f"{cname} [{dy} on a second instance]: {e}")
+            n_iso += 1
+            for attr, exp in ey.items():
+                if attr in ("_should_remove_handler", "_error_count", "total_error_count"):
+                    continue
+                got = read_field(interp, rx2, attr)
+                ok, why = compare(exp, got)
+                ctx.ob("R2", f"{cname}[{dy} on a second instance]::{attr}", ok,
+                       f"a fresh {cname} decoding {dy} after ANOTHER instance decoded {dx} gives `{attr}` wrong: {why} - decoded state is shared between instances of the class", repo.method(cname, "handle").loc)
     ctx.count("R2:sequential_decode_pairs", n_pairs)
     ctx.floor("R2", "sequential decode pairs", n_pairs, 20)
+    ctx.floor("R2", "second-instance decodes", n_iso, 15)
 
     # async partial handler decodes the same STATP
     try:
